@@ -1,6 +1,6 @@
 """Shared machinery of the checks: builds (implementation from /repo's working tree, model
 from the Coq development), driver I/O, proof-obligation re-validation, evidence, verdicts."""
-import hashlib, json, os, subprocess, sys, time, shutil, random, re
+import contextlib, fcntl, hashlib, json, os, subprocess, sys, threading, time, shutil, random, re
 from concurrent.futures import ThreadPoolExecutor
 
 VERIF = os.path.dirname(os.path.dirname(os.path.abspath(__file__)))
@@ -125,18 +125,69 @@ def build_impl(flavours=("A", "W", "A_asan", "W_asan"), extra_defines=(), driver
     return exes
 
 # ----------------------------------------------------------------------------- model build
+_coq_rlock = threading.RLock()
+_coq_depth = [0, None]
+
+@contextlib.contextmanager
+def coq_lock():
+    """One writer at a time in coq/: several checks may run at once on different trees (tools/seedall.py,
+    tools/mutcampaign.py) and each re-derives coq/Generated/SwitchTables.v from ITS tree before building."""
+    with _coq_rlock:
+        if _coq_depth[0] == 0:
+            os.makedirs(BUILD, exist_ok=True)
+            _coq_depth[1] = open(os.path.join(BUILD, ".coq.lock"), "w")
+            fcntl.flock(_coq_depth[1], fcntl.LOCK_EX)
+        _coq_depth[0] += 1
+        try:
+            yield
+        finally:
+            _coq_depth[0] -= 1
+            if _coq_depth[0] == 0:
+                fcntl.flock(_coq_depth[1], fcntl.LOCK_UN); _coq_depth[1].close(); _coq_depth[1] = None
+
+SWITCHTABLES = os.path.join(COQ, "Generated", "SwitchTables.v")
+
+def regen_switchtables():
+    """Translate the character switches of REPO/src (the tree being checked) into coq/Generated/SwitchTables.v.
+    The file is rewritten only when its content differs from what this tree yields: `make` stays a no-op on an
+    unchanged tree, and a run on another tree (VERIF_REPO) cannot leave a stale file behind for the next run.
+    Returns True when the file was rewritten.  Call with coq_lock() held together with the build that follows."""
+    d = os.path.dirname(os.path.abspath(__file__))
+    if d not in sys.path: sys.path.insert(0, d)
+    import switchtables
+    new = switchtables.render(os.path.join(REPO, "src"))
+    try: old = open(SWITCHTABLES).read()
+    except OSError: old = None
+    if old == new: return False
+    os.makedirs(os.path.dirname(SWITCHTABLES), exist_ok=True)
+    tmp = SWITCHTABLES + ".tmp"
+    with open(tmp, "w") as f: f.write(new)
+    os.replace(tmp, SWITCHTABLES)
+    return True
+
 def coq_make(target=None, timeout=3600):
-    if not os.path.exists(os.path.join(COQ, "Makefile")):
-        sh("coq_makefile -f _CoqProject -o Makefile", cwd=COQ)
-    cmd = "timeout %d make -j%d %s" % (timeout, NCPU, target or "")
-    return sh(cmd, cwd=COQ, check=False)
+    with coq_lock():
+        if not os.path.exists(os.path.join(COQ, "Makefile")):
+            sh("coq_makefile -f _CoqProject -o Makefile", cwd=COQ)
+        cmd = "timeout %d make -k -j%d %s" % (timeout, NCPU, target or "")
+        return sh(cmd, cwd=COQ, check=False)
+
+def extract_targets():
+    return " ".join(sorted("Extract/" + f[:-2] + ".vo" for f in os.listdir(os.path.join(COQ, "Extract")) if f.endswith(".v")))
 
 def build_model(extract="model", driver="driver.ml"):
     """Build the Coq development (no-op when up to date), then an OCaml driver from an extracted file.
     coq/<extract>.ml(i) is copied as model.ml(i) next to ocaml/glue.ml and ocaml/<driver>."""
-    rc, out = coq_make()
-    if rc != 0:
-        raise RuntimeError("Coq development does not build:\n" + out[-4000:])
+    with coq_lock():
+        try: regen_switchtables()
+        except Exception as e: log("switch tables not regenerated: %s" % e)     # reported by check_proofs
+        rc, out = coq_make()
+        if rc != 0:
+            # the extracted models do not depend on the tables translated from the C tree: a proof obligation about those
+            # tables that no longer checks is reported by check_proofs and must not stop the run-time comparison
+            rc2, out2 = coq_make(target=extract_targets())
+            if rc2 != 0:
+                raise RuntimeError("Coq development does not build:\n" + out[-4000:])
     srcs = [os.path.join(COQ, extract + ".ml"), os.path.join(COQ, extract + ".mli"),
             os.path.join(VERIF, "ocaml", "glue.ml"), os.path.join(VERIF, "ocaml", driver)]
     key = tree_hash(srcs)
@@ -177,6 +228,14 @@ def scan_forbidden():
                 hits.append("%s: %s" % (os.path.relpath(p, VERIF), m.group(0)))
     return hits
 
+def coq_errors(out):
+    """the error messages of a make/coqc log (file, line, message), without the progress lines"""
+    keep = []; lines = out.split("\n")
+    for i, l in enumerate(lines):
+        if l.startswith("File ") and i + 1 < len(lines) and lines[i + 1].startswith("Error"):
+            keep.append(" ".join(" ".join(lines[i:i + 5]).split()))
+    return (" | ".join(keep) or out[-1500:])[:1500]
+
 def check_proofs(pid, extra_props=()):
     """Re-validate the proof obligations of property `pid`: the development builds (full .vo),
     Props/<pid>.v is re-checked by coqc, every Theorem in it is followed by Print Assumptions.
@@ -185,9 +244,25 @@ def check_proofs(pid, extra_props=()):
     forb = scan_forbidden()
     if forb:
         res["failures"].append("forbidden vernacular in the development: " + "; ".join(forb[:10]))
+    with coq_lock():
+        return _check_proofs_locked(pid, extra_props, res)
+
+def _check_proofs_locked(pid, extra_props, res):
+    # the tables of the character switches are re-derived from the tree that is being checked (REPO), every time
+    try:
+        regen_switchtables()
+    except Exception as e:
+        res["failures"].append("the switch tables cannot be derived from %s/src (gen/switchtables.py): %s" % (REPO, e))
     rc, out = coq_make()
     if rc != 0:
-        res["failures"].append("Coq development does not build: " + out[-1500:])
+        # does what fails lie under the obligations of THIS property?  (e.g. a changed `switch` of UriParse.c breaks
+        # Proofs/SwitchRefine.v: an obligation of C01, not of C16)
+        mine = " ".join("Props/%s.vo" % p for p in (pid,) + tuple(extra_props))
+        rc2, out2 = coq_make(target=mine)
+        if rc2 != 0:
+            res["failures"].append("Coq development does not build: " + coq_errors(out2))
+        else:
+            log("note: part of the Coq development does not build, but not what %s rests on: %s" % (pid, coq_errors(out)[:300]))
     for prop in (pid,) + tuple(extra_props):
         pf = os.path.join(COQ, "Props", prop + ".v")
         if not os.path.exists(pf):
@@ -318,8 +393,8 @@ class Check:
             for f in os.listdir(rdir):
                 if f.startswith(tier + "_"): os.remove(os.path.join(rdir, f))
 
-    def violation(self, what, replay, found_input=True):
-        if len(self.violations) >= 20:
+    def violation(self, what, replay, found_input=True, force=False):
+        if len(self.violations) >= 20 and not force:
             self.violations.append(None); return
         os.makedirs(os.path.join(OUT, "replays", self.pid), exist_ok=True)
         self._replay_n += 1
@@ -349,7 +424,7 @@ class Check:
         real = [v for v in self.violations if v]
         if proofs["failures"]:
             for fmsg in proofs["failures"]:
-                self.violation("proof obligation no longer checks: " + fmsg, {"theorem_or_correspondence": fmsg}, found_input=False)
+                self.violation("proof obligation no longer checks: " + fmsg, {"theorem_or_correspondence": fmsg}, found_input=False, force=True)
             real = [v for v in self.violations if v]
         ev = {"property_id": self.pid, "tier": self.tier, "seed": self.seed, "level": level,
               "coverage": cov, "assumptions": self.assumptions, "wall_s": round(time.time() - self.t0, 2),
@@ -362,6 +437,7 @@ class Check:
             # violations with a failing input first
             real.sort(key=lambda v: not v[2])
             logs = ["violation: " + what for what, path, found in real[:10]]
+            logs += ["violation: " + what for what, path, found in real[10:] if what.startswith("proof obligation")]   # never dropped from the log
             what, path, found = real[0]
             lines.append("VIOLATION property=%s replay=%s%s" % (self.pid, path, "" if found else " no-failing-input-found"))
             if not found and getattr(self, "defer_if_no_input", False):
